@@ -1018,7 +1018,7 @@ def run_part_b(ctx: Ctx) -> None:
             t0 = batch[len(batch) // 3]
             ctx.sample({"part": "B", "scenario": b_describe(t0),
                         "events": [[e["ev"], e["c"], e["t"]] for e in t0["events"]][:40]})
-        n = ctx.pick(1500, 20000)
+        n = ctx.pick(1000, 20000)
         batch = []
         for _ in range(n):
             x = ShutExec(loop, b_random_scenario(ctx.rng))
@@ -1203,7 +1203,7 @@ def selftest(ctx: Ctx) -> int:
     # ---- B (ii)
     print("B model mutants:")
     for flag, want in (("GraceWait", "GraceRespected"), ("SecondWait", "CancelledBy2T"),
-                       ("PreShutdownCloses", "NoNewRequests"), ("PreShutdownMarksActive", "NoNewRequests|ClosedOnCompletion"),
+                       ("PreShutdownCloses", "NoNewRequests|ClosedOnCompletion"), ("PreShutdownMarksActive", "NoNewRequests|ClosedOnCompletion"),
                        ("CloseIdleAtOnce", "IdleClosedAtOnce"),
                        ("CancelLostConnHandler", "CancelledBy2T")):
         res = run_tlc("ServerShutdown", b_cfg("mut_" + flag, 2, [1, 3, 99], [0, 2, 3], {flag: False}, B_INVS),
